@@ -58,6 +58,25 @@ T = {
  'C03-m2': ('C03', 'find.tests_from_suite prunes a whole TestSuite whose level exceeds --at-level (inner declarations can lower it)',
             'an outer suite with level K containing a class / inner suite / test declaring level k < K, --at-level N with k <= N < K',
             'C03 quick: C03:list-set, C03:missing', 'caught at once'),
+ 'C08-m1': ('C08', 'options.get_options drops empty patterns from -t / -m / --layer lists',
+            "an empty pattern '' together with another positive pattern of the same option",
+            "C08 quick: C08:accept|options_filter (patterns ['alpha', ''] reject 'beta'), C03:list-set end to end", 'caught at once'),
+ 'C08-m2': ('C08', "filter.build_filtering_func: fast path `if '.' in patterns: accept everything`",
+            "the literal pattern '.' together with a '!'-pattern that matches",
+            'C08 quick: C08:accept|filter, C08:accept|options_filter, C03:list-set end to end', 'caught at once'),
+ 'C09-m1': ('C09', "find.tests_from_suite: getattr(suite, 'level', None) or dlevel (level 0 is falsy and is inherited away)",
+            'a level = 0 declaration inside a suite with another effective level + a level switch that tells them apart',
+            'C09 quick: C03:list-set, C03:missing, C03:not-selected', 'caught at once'),
+ 'C09-m2': ('C09', 'filter.Filter.global_setup: --layer acceptance of the unit layer overrides --non-unit',
+            '-f without -u plus a --layer pattern list that accepts zope.testrunner.layer.UnitTests',
+            'C09 quick: C03:list-set', 'caught at once'),
+ 'C20-m1': ('C20', 'DiGraph.sccs: the stacked flag is cleared only for the root of a popped component',
+            'an already emitted component with >= 2 nodes and a later visited node with an edge to a non-root member',
+            'C20 quick: C20:not-partition, C20:cycle-missed, C20:wrong-class', 'caught at once'),
+ 'C20-m2': ('C20', 'DiGraph.sccs: self-loop test on the untransformed node objects (== instead of identity keys)',
+            'identity-keyed graph, default mode, one-node component without self-loop whose node has an edge to a distinct but ==-equal object',
+            'C20 quick: C20:acyclic-component-reported (identity-keyed nodes whose == is value based)',
+            'caught at once; patch.diff was rebased by hand onto the C20 fix commit 2c4c49e (same line)'),
 }
 
 
